@@ -923,6 +923,21 @@ func (se *specEnv) call(e *SExpr) SVal {
 			return SVal{tv, sig.Results()}
 		}
 		return SVal{v, sig.Results().At(0).Type()}
+	case "called":
+		// called("pkg.F", args...): a call to the `traced` function F with these arguments was made on the way here
+		key := e.Args[0].Str
+		target := f.ctx.eng.fnByKey[key]
+		if target == nil {
+			sfail("called: unknown function %q", key)
+		}
+		if ct := f.ctx.eng.contractFor(target); ct == nil || !ct.Traced {
+			sfail("called: %s is not declared `traced`", key)
+		}
+		var ts []*Term
+		for _, a := range e.Args[1:] {
+			ts = append(ts, se.term(a))
+		}
+		return SVal{f.ctx.uf("called!"+key, SBool, ts...), tb}
 	case "hastype":
 		// hastype(x, "int64" | "float64" | "bool" | "string" | "encoding/json.Number"): dynamic type of an interface value
 		x := se.eval(e.Args[0])
